@@ -81,7 +81,7 @@ def _tree_hash(variant):
 
 def _prune(keep=8):
     try:
-        ents = [os.path.join(CACHE, d) for d in os.listdir(CACHE) if not d.startswith("tmp")]
+        ents = [os.path.join(CACHE, d) for d in os.listdir(CACHE) if not d.startswith("tmp") and d != "native"]
     except OSError:
         return
     ents.sort(key=lambda p: os.path.getmtime(p), reverse=True)
@@ -163,6 +163,40 @@ def build_native(libdir, name, source, extra=(), cc="gcc", link_rebound=True):
         sys.stderr.write(r.stdout.decode(errors="replace"))
         raise RuntimeError("native build failed: " + source)
     os.rename(out + ".tmp%d" % os.getpid(), out)
+    return out
+
+
+def build_shim(source):
+    """Compile /verif/native/<source> (an LD_PRELOAD shim that needs nothing from librebound) into the cache."""
+    src = os.path.join(VERIF, "native", source)
+    h = hashlib.sha256(open(src, "rb").read()).hexdigest()[:12]
+    d = os.path.join(CACHE, "native")
+    os.makedirs(d, exist_ok=True)
+    out = os.path.join(d, "%s-%s.so" % (source[:-2], h))
+    if not os.path.exists(out):
+        tmp = out + ".tmp%d" % os.getpid()
+        r = subprocess.run(["gcc", "-O1", "-g", "-fPIC", "-shared", "-std=gnu99", "-w", src, "-o", tmp, "-ldl", "-lpthread"], stdout=subprocess.PIPE, stderr=subprocess.STDOUT)
+        if r.returncode != 0:
+            sys.stderr.write(r.stdout.decode(errors="replace"))
+            raise RuntimeError("shim build failed: " + source)
+        os.rename(tmp, out)
+    return out
+
+
+def build_exe(libdir, source, cc="gcc", extra=()):
+    """Compile /verif/native/<source> into an executable linked against the librebound in libdir."""
+    src = os.path.join(VERIF, "native", source)
+    h = hashlib.sha256(open(src, "rb").read() + repr((cc, extra)).encode()).hexdigest()[:12]
+    out = os.path.join(libdir, "%s-%s.exe" % (source[:-2], h))
+    if not os.path.exists(out):
+        tmp = out + ".tmp%d" % os.getpid()
+        cmd = [cc, "-O1", "-g", "-std=gnu99", "-D_GNU_SOURCE", "-w"] + list(extra) + ["-I", os.path.join(libdir, "include"), src, "-o", tmp,
+               "-L", libdir, "-l:librebound" + SUFFIX, "-Wl,-rpath," + libdir, "-lm", "-lpthread"]
+        r = subprocess.run(cmd, stdout=subprocess.PIPE, stderr=subprocess.STDOUT)
+        if r.returncode != 0:
+            sys.stderr.write(r.stdout.decode(errors="replace"))
+            raise RuntimeError("native build failed: " + source)
+        os.rename(tmp, out)
     return out
 
 
